@@ -1,18 +1,20 @@
-(** C01 — spend completeness: the invariant carried through a transaction, a block, a batch,
+(** C01 — spend completeness over a universe with position-dependent nullifiers
+    ([Spec.weak_universe], [Spec.own_versions]): the invariant carried through a transaction, a block, a batch,
     an operation.  See [inv] at the end of the file for the state-level statement. *)
 From V.Lib Require Import Base.
 From V.Gen Require Import C01Consts.
-From V.C01 Require Import Model Spec Proofs Tables Chain.
+From V.C01 Require Import Model Spec Proofs Tables Chain WProofs WTables.
 Local Open Scope N_scope.
 
-Section Complete2.
+Section WComplete.
 Variable birthday : N.
 Variable c : list block.
 Hypothesis Hv : valid_chain birthday c.
 (** [U]: all blocks the wallet was ever offered, over all branches; [c]: the current best chain *)
 Variable U : list block.
 Hypothesis HcU : incl c U.
-Hypothesis HU : valid_universe U.
+Hypothesis HU : weak_universe U.
+Hypothesis HownV : own_versions c U.
 
 Let Hheights := vc_heights _ _ Hv.
 
@@ -55,14 +57,65 @@ Proof.
   exists b, t. repeat split; try assumption. congruence.
 Qed.
 
-(** spenders recorded for a key reveal that key (from note soundness) *)
-Lemma spent_char notes k x :
-  Forall (note_sound U) notes -> In x (spent_of k notes) ->
-  exists b t, In b U /\ In t (b_txs b) /\ t_id t = x /\ In k (t_spends t).
+(** the same transaction in two blocks of the universe: same spends; outputs up to nullifiers *)
+Lemma same_tx_spends b t b' t' : In b U -> In t (b_txs b) -> In b' U -> In t' (b_txs b') -> t_id t = t_id t' -> t_spends t = t_spends t'.
+Proof. intros. destruct (wu_tx _ HU b t b' t'); auto. Qed.
+
+Lemma same_tx_out b t o b' t' :
+  In b U -> In t (b_txs b) -> In o (t_outs t) -> In b' U -> In t' (b_txs b') -> t_id t = t_id t' ->
+  exists o', In o' (t_outs t') /\ out_nonf o' = out_nonf o.
 Proof.
-  intros Hs Hx. unfold spent_of in Hx. destruct (find_note k notes) as [n|] eqn:E; [|destruct Hx].
-  apply find_note_In in E. destruct E as [E1 E2]. rewrite Forall_forall in Hs.
+  intros Hb Ht Ho Hb' Ht' E. destruct (wu_tx _ HU b t b' t' Hb Ht Hb' Ht' E) as [_ Hm].
+  assert (Hin : In (out_nonf o) (map out_nonf (t_outs t'))) by (rewrite <- Hm; apply in_map; assumption).
+  apply in_map_iff in Hin. destruct Hin as [o' [E' Ho']]. eauto.
+Qed.
+
+(** versions of one output (same name) agree on everything but the nullifier *)
+Lemma versions_nonf b t o b' t' o' :
+  In b U -> In t (b_txs b) -> In o (t_outs t) -> In b' U -> In t' (b_txs b') -> In o' (t_outs t') ->
+  out_id t o = out_id t' o' -> out_nonf o = out_nonf o'.
+Proof.
+  intros Hb Ht Ho Hb' Ht' Ho' E. unfold out_id in E. inversion E as [[Ep Et Ei]].
+  destruct (same_tx_out b t o b' t' Hb Ht Ho Hb' Ht' Et) as [o'' [Ho'' En]].
+  assert (o'' = o').
+  { apply (wu_idx _ HU b' t' o'' o'); auto; unfold out_nonf in En; inversion En; congruence. }
+  subst. auto.
+Qed.
+
+(** within the current chain an output name determines the output *)
+Lemma chain_out_id b t o b' t' o' :
+  In b c -> In t (b_txs b) -> In o (t_outs t) -> In b' c -> In t' (b_txs b') -> In o' (t_outs t') ->
+  out_id t o = out_id t' o' -> b = b' /\ t = t' /\ o = o'.
+Proof.
+  intros Hb Ht Ho Hb' Ht' Ho' E. unfold out_id in E. inversion E as [[Ep Et Ei]].
+  destruct (tx_unique birthday c Hv b t b' t') as [-> ->]; auto. split; [reflexivity|]. split; [reflexivity|].
+  apply (vc_idx _ _ Hv b' t' o o'); auto.
+Qed.
+
+(** spenders recorded for an output reveal the nullifier of some version of it *)
+Lemma spent_char_w notes i x :
+  Forall (note_sound_w U) notes -> In x (spent_id i notes) ->
+  exists b t k, In b U /\ In t (b_txs b) /\ t_id t = x /\ version U i k /\ In k (t_spends t).
+Proof.
+  intros Hs Hx. unfold spent_id in Hx. destruct (find_id i notes) as [n|] eqn:E; [|destruct Hx].
+  apply find_id_In in E. destruct E as [E1 E2]. rewrite Forall_forall in Hs.
   destruct (Hs _ E1) as [_ H2]. rewrite <- E2. auto.
+Qed.
+
+(** a mined spender of an output that the current chain contains reveals the chain's own version *)
+Lemma mined_spender_own (Sc0 : N -> Prop) txs notes b0 t0 o x :
+  Forall (note_sound_w U) notes -> Forall (row_ok Sc0) txs ->
+  In b0 c -> In t0 (b_txs b0) -> In o (t_outs t0) ->
+  In x (spent_id (out_id t0 o) notes) -> row_mined txs x = true ->
+  exists b1 t1, In b1 c /\ In t1 (b_txs b1) /\ t_id t1 = x /\ Sc0 (b_height b1) /\ In (o_key o) (t_spends t1).
+Proof.
+  intros Hs Hr Hb0 Ht0 Ho Hx Hm.
+  destruct (spent_char_w _ _ _ Hs Hx) as [b' [t' [k [Hb' [Ht' [Hid [[bV [tV [oV [HbV [HtV [HoV [Ei Ek]]]]]]] Hk]]]]]]].
+  destruct (mined_row_chain _ _ _ Hr Hm) as [b1 [t1 [Hb1 [Ht1 [Hid1 HS]]]]].
+  exists b1, t1. repeat split; try assumption.
+  assert (Es : t_spends t1 = t_spends t') by (apply (same_tx_spends b1 t1 b' t'); auto; congruence).
+  rewrite Es. subst k.
+  rewrite <- (HownV b1 t1 bV tV oV b0 t0 o); auto. rewrite Es. assumption.
 Qed.
 
 (** * Context of one block of a batch *)
@@ -95,22 +148,22 @@ Hypothesis HL1 : forall h' i t', In (h', i, t') locs -> Q h'.
 Hypothesis HQdec : forall m, Q m \/ ~ Q m.
 
 Record txinv (pre : list tx) (txs : list txrow) (notes : list note) : Prop := {
-  ti_sound : Forall (note_sound U) notes;
-  ti_nodup : NoDup (map n_key notes);
+  ti_sound : Forall (note_sound_w U) notes;
+  ti_nodup : NoDup (map nid notes);
   ti_rows : Forall (row_ok Sc) txs;
   ti_recv : forall b t o, In b c -> In t (b_txs b) -> Dp pre b t -> In o (t_outs t) -> owned o = true ->
               row_mined txs (t_id t) = true;
   ti_has : forall b t o, In b c -> In t (b_txs b) -> Dp pre b t -> In o (t_outs t) -> owned o = true ->
-              has_key (o_key o) notes;
+              key_id (out_id t o) notes = Some (o_key o);
   ti_spent : forall b t o b' t', In b c -> In t (b_txs b) -> Dp pre b t -> In o (t_outs t) -> owned o = true ->
               In b' c -> In t' (b_txs b') -> Dp pre b' t' -> In (o_key o) (t_spends t') ->
-              In (t_id t') (spent_of (o_key o) notes);
+              In (t_id t') (spent_id (out_id t o) notes);
   ti_spm : forall b t o b' t', In b c -> In t (b_txs b) -> Dp pre b t -> In o (t_outs t) -> owned o = true ->
               In b' c -> In t' (b_txs b') -> Dp pre b' t' -> In (o_key o) (t_spends t') ->
               row_mined txs (t_id t') = true;
   ti_f2 : forall b t o, In b c -> In t (b_txs b) -> In o (t_outs t) -> owned o = true ->
               Q (b_height b) -> b_height b < h ->
-              (forall x, In x (spent_of (o_key o) notes) -> row_mined txs x = false) -> mem_key (o_key o) nfs = true
+              (forall x, In x (spent_id (out_id t o) notes) -> row_mined txs x = false) -> mem_key (o_key o) nfs = true
 }.
 
 Lemma Dp_snoc pre t0 b t : Dp (pre ++ [t0]) b t <-> Dp pre b t \/ (b = cb /\ t = t0).
@@ -125,22 +178,20 @@ Lemma spend_known pre txs notes t b0 t0 o :
   In b0 c -> In t0 (b_txs b0) -> Dp pre b0 t0 -> In o (t_outs t0) -> owned o = true ->
   In (o_key o) (t_spends t) ->
   mem_key (o_key o) nfs = true
-  \/ (In (t_id t) (spent_of (o_key o) notes) /\ row_mined txs (t_id t) = true).
+  \/ (In (t_id t) (spent_id (out_id t0 o) notes) /\ row_mined txs (t_id t) = true).
 Proof.
   intros I Ht Hb0 Ht0 HD Ho Hown Hk.
   assert (Hlt : b_height b0 < h) by (eapply (spend_above birthday c Hv); eauto).
   assert (HQ : Q (b_height b0)).
   { destruct HD as [? | [-> _]]; [assumption | unfold h in Hlt; lia]. }
-  destruct (existsb (row_mined txs) (spent_of (o_key o) notes)) eqn:E.
+  destruct (existsb (row_mined txs) (spent_id (out_id t0 o) notes)) eqn:E.
   - right. apply existsb_exists in E. destruct E as [x [Hx Hm]].
-    destruct (spent_char _ _ _ (ti_sound _ _ _ I) Hx) as [b' [t' [Hb' [Ht' [Hid Hk']]]]].
-    destruct (mined_row_chain _ _ _ (ti_rows _ _ _ I) Hm) as [b1 [t1 [Hb1 [Ht1 [Hid1 _]]]]].
-    assert (t1 = t') by (apply (vu_tx _ HU b1 t1 b' t'); auto; congruence). subst t1.
-    destruct (reveal_unique birthday c Hv b1 t' cb t (o_key o)) as [_ ->]; auto.
-    rewrite Hid. auto.
+    destruct (mined_spender_own _ _ _ b0 t0 o x (ti_sound _ _ _ I) (ti_rows _ _ _ I) Hb0 Ht0 Ho Hx Hm) as [b1 [t1 [Hb1 [Ht1 [Hid1 [_ Hk1]]]]]].
+    destruct (reveal_unique birthday c Hv b1 t1 cb t (o_key o)) as [_ ->]; auto.
+    rewrite Hid1. auto.
   - left. eapply (ti_f2 _ _ _ I); eauto. intros x Hx.
     destruct (row_mined txs x) eqn:Em; [|reflexivity].
-    assert (existsb (row_mined txs) (spent_of (o_key o) notes) = true) by (apply existsb_exists; eauto). congruence.
+    assert (existsb (row_mined txs) (spent_id (out_id t0 o) notes) = true) by (apply existsb_exists; eauto). congruence.
 Qed.
 
 (** ** a transaction that produces no WalletTx *)
@@ -194,32 +245,35 @@ Proof.
   destruct (mark_all (put_tx_meta (t_id t) h txs) (wt_found w) (t_id t) notes) as [notes1|] eqn:Em; [|discriminate].
   inversion Hput as [E']. clear Hput.
   set (txs1 := put_tx_meta (t_id t) h txs) in *.
-  pose proof (fun k' => mark_all_of _ _ _ _ _ k' Em) as A.
-  pose proof (mark_all_sound U _ _ _ _ _ Em) as Hsm.
-  assert (Hs1 : Forall (note_sound U) notes1).
-  { apply Hsm; [|apply (ti_sound _ _ _ I)]. intros k Hk. rewrite Hfound in Hk. apply filter_In in Hk.
-    exists cb, t. repeat split; try tauto. apply HcU. assumption. }
-  assert (Hpair : forall o o', In o (wt_owned w) -> In o' (wt_owned w) -> pairc o o').
-  { intros o o' Ho Ho'. rewrite Hown in Ho, Ho'. apply filter_In in Ho, Ho'.
-    apply (pairc_universe U HU cb t); try tauto. apply HcU. assumption. }
-  assert (Hkeyed : forall o, In o (wt_owned w) -> keyed notes1 (o_key o) (t_id t) (o_idx o)).
-  { intros o Ho. rewrite Hown in Ho. apply filter_In in Ho.
-    apply (keyed_of_sound U HU notes1 cb t o Hs1); try tauto. apply HcU. assumption. }
-  destruct (put_outputs_of _ _ _ _ _ _ _ _ Hpair Hkeyed E') as [BK BS].
-  assert (Hmono : forall k x, In x (spent_of k notes) -> In x (spent_of k notes')).
-  { intros k x Hx. apply BS. left. apply (A k). left. assumption. }
+  assert (Hndk : NoDup (map n_key notes)) by (apply (sound_nodup_keys U HU); [apply (ti_sound _ _ _ I) | apply (ti_nodup _ _ _ I)]).
+  pose proof (fun i => mark_all_id _ _ _ _ _ i Hndk Em) as A.
+  assert (Hoi : forall o, oi (t_id t) o = out_id t o) by reflexivity.
+  assert (Hinj : forall o o', In o (wt_owned w) -> In o' (wt_owned w) -> oi (t_id t) o = oi (t_id t) o' -> o_key o = o_key o').
+  { intros o o' Ho Ho' E. rewrite Hown in Ho, Ho'. apply filter_In in Ho, Ho'.
+    destruct (chain_out_id cb t o cb t o') as [_ [_ ->]]; tauto. }
+  destruct (put_outputs_id _ _ _ _ _ _ _ _ E' Hinj) as [BK [BF BS]].
+  assert (Hmono : forall i x, In x (spent_id i notes) -> In x (spent_id i notes')).
+  { intros i x Hx. apply BS. left. apply (A i). left. assumption. }
   destruct (put_outputs_mined _ _ _ _ _ _ _ _ E') as [RM RD].
   assert (Hrm : forall id, row_mined txs id = true -> row_mined txs' id = true).
   { intros id Hm. apply RM. apply row_mined_put. left. assumption. }
   assert (Hrt : row_mined txs' (t_id t) = true).
   { apply RM. apply row_mined_put. right. reflexivity. }
-  assert (Hhas : forall k, has_key k notes -> has_key k notes').
-  { intros k Hk. apply BK. left. apply (A k). assumption. }
-  assert (Hownk : forall o, In o (t_outs t) -> owned o = true -> In (o_key o) (map o_key (wt_owned w))).
-  { intros o H1 H2. apply in_map. rewrite Hown. apply filter_In. auto. }
+  (* the nullifier recorded for an output of an already processed transaction is unchanged *)
+  assert (Hkeep : forall b0 t0 o0, In b0 c -> In t0 (b_txs b0) -> In o0 (t_outs t0) ->
+            key_id (out_id t0 o0) notes = Some (o_key o0) -> key_id (out_id t0 o0) notes' = Some (o_key o0)).
+  { intros b0 t0 o0 Hb0 Ht0 Ho0 Hk.
+    destruct (existsb (fun o' => oid_eqb (oi (t_id t) o') (out_id t0 o0)) (wt_owned w)) eqn:Ex.
+    - apply existsb_exists in Ex. destruct Ex as [o' [Ho' E]]. apply oid_eqb_eq in E.
+      rewrite <- E, (BK o' Ho'). f_equal. rewrite Hown in Ho'. apply filter_In in Ho'.
+      destruct (chain_out_id cb t o' b0 t0 o0) as [_ [_ ->]]; tauto.
+    - unfold key_id. rewrite BF.
+      + fold (key_id (out_id t0 o0) notes1). rewrite (proj1 (A _)). assumption.
+      + intros o' Ho' E. assert (existsb (fun o' => oid_eqb (oi (t_id t) o') (out_id t0 o0)) (wt_owned w) = true); [|congruence].
+        apply existsb_exists. exists o'. split; [assumption | apply oid_eqb_eq; assumption]. }
   (* soundness of the new notes table *)
-  assert (Hsnd : Forall (note_sound U) notes' /\ NoDup (map n_key notes')).
-  { apply (put_wtxs_sound c U HcU HU birthday Hheights h nfm locs HNs HLs [w] txs notes txs' notes').
+  assert (Hsnd : Forall (note_sound_w U) notes' /\ NoDup (map nid notes')).
+  { apply (put_wtxs_sound_w c U HcU birthday Hheights h nfm locs HNs HLs [w] txs notes txs' notes').
     - intros w0 [<- | []]. exists cb, t. repeat split; try assumption.
       + rewrite Hfound. intros k Hk. apply filter_In in Hk. tauto.
       + rewrite Hown. apply incl_refl.
@@ -239,10 +293,10 @@ Proof.
     eapply (put_outputs_rows (fun l => row_mined l (t_id t0) = true)); [| exact E' |].
     + intros k t' h' l _ Hl. apply row_mined_put. left. assumption.
     + apply row_mined_put. apply Dp_snoc in HD. destruct HD as [HD | [-> ->]]; [left; eapply (ti_recv _ _ _ I); eauto | right; reflexivity].
-  - (* every owned output of a processed transaction has its note *)
+  - (* every owned output of a processed transaction has its row, under its current nullifier *)
     intros b t0 o Hb Ht0 HD Ho Hoo. apply Dp_snoc in HD. destruct HD as [HD | [-> ->]].
-    + apply Hhas. eapply (ti_has _ _ _ I); eauto.
-    + apply BK. right. auto.
+    + apply (Hkeep b t0 o Hb Ht0 Ho). exact (ti_has _ _ _ I b t0 o Hb Ht0 HD Ho Hoo).
+    + rewrite <- Hoi. apply BK. rewrite Hown. apply filter_In. auto.
   - (* spends *)
     intros b t0 o b' t' Hb Ht0 HD Ho Hoo Hb' Ht' HD' Hk.
     apply Dp_snoc in HD. apply Dp_snoc in HD'.
@@ -250,7 +304,7 @@ Proof.
     + destruct HD' as [HD' | [-> ->]].
       * apply Hmono. exact (ti_spent _ _ _ I b t0 o b' t' Hb Ht0 HD Ho Hoo Hb' Ht' HD' Hk).
       * destruct (spend_known pre txs notes t b t0 o I Ht Hb Ht0 HD Ho Hoo Hk) as [Hm | [Hin _]]; [|apply Hmono; assumption].
-        apply BS. left. apply (A (o_key o)). right. split; [|split; [|reflexivity]].
+        apply BS. left. apply (A (out_id t0 o)). right. exists (o_key o). split; [|split; [|reflexivity]].
         -- rewrite Hfound. apply filter_In. auto.
         -- exact (ti_has _ _ _ I b t0 o Hb Ht0 HD Ho Hoo).
     + (* the note is created by this transaction *)
@@ -261,7 +315,8 @@ Proof.
       * apply Hmono. refine (ti_spent _ _ _ I cb t o b' t' Hcb Ht _ Ho Hoo Hb' Ht' HD' Hk). left. assumption.
       * destruct (In_nth_error _ _ Ht') as [i Hi].
         destruct (HM b' t' i o cb t Hb' HQ' Hi Hk Hcb Ht Ho Hoo HnQh) as [M1 M2].
-        apply BS. right. split; [auto|]. exists (b_height b'). unfold detect_spend. rewrite M1, M2. reflexivity.
+        apply BS. right. exists o, (b_height b'). split; [rewrite Hown; apply filter_In; auto|]. split; [reflexivity|].
+        unfold detect_spend. rewrite M1, M2. reflexivity.
   - (* spenders in processed transactions are mined *)
     intros b t0 o b' t' Hb Ht0 HD Ho Hoo Hb' Ht' HD' Hk.
     apply Dp_snoc in HD. apply Dp_snoc in HD'.
@@ -322,15 +377,15 @@ Lemma Qof_dec bl m : Qof bl m \/ ~ Qof bl m.
 Proof. unfold Qof. destruct (has_block bl m); [left; reflexivity | right; discriminate]. Qed.
 
 Record blkinv (nfs : list key) (hn : N) (r : rows) : Prop := {
-  bi_sound : sound_rows c U (r_blocks r) (r_notes r) (r_locs r) (r_nfmap r);
+  bi_sound : sound_rows_w c U (r_blocks r) (r_notes r) (r_locs r) (r_nfmap r);
   bi_rows : Forall (row_ok (Qof (r_blocks r))) (r_txs r);
   bi_recv : forall b t o, In b c -> In t (b_txs b) -> Qof (r_blocks r) (b_height b) -> In o (t_outs t) -> owned o = true ->
               row_mined (r_txs r) (t_id t) = true;
   bi_has : forall b t o, In b c -> In t (b_txs b) -> Qof (r_blocks r) (b_height b) -> In o (t_outs t) -> owned o = true ->
-              has_key (o_key o) (r_notes r);
+              key_id (out_id t o) (r_notes r) = Some (o_key o);
   bi_spent : forall b t o b' t', In b c -> In t (b_txs b) -> Qof (r_blocks r) (b_height b) -> In o (t_outs t) -> owned o = true ->
               In b' c -> In t' (b_txs b') -> Qof (r_blocks r) (b_height b') -> In (o_key o) (t_spends t') ->
-              In (t_id t') (spent_of (o_key o) (r_notes r));
+              In (t_id t') (spent_id (out_id t o) (r_notes r));
   bi_spm : forall b t o b' t', In b c -> In t (b_txs b) -> Qof (r_blocks r) (b_height b) -> In o (t_outs t) -> owned o = true ->
               In b' c -> In t' (b_txs b') -> Qof (r_blocks r) (b_height b') -> In (o_key o) (t_spends t') ->
               row_mined (r_txs r) (t_id t') = true;
@@ -339,7 +394,7 @@ Record blkinv (nfs : list key) (hn : N) (r : rows) : Prop := {
                             /\ Qof (r_blocks r) (b_height b);
   bi_f2 : forall b t o, In b c -> In t (b_txs b) -> In o (t_outs t) -> owned o = true ->
               Qof (r_blocks r) (b_height b) -> b_height b < hn ->
-              (forall x, In x (spent_of (o_key o) (r_notes r)) -> row_mined (r_txs r) x = false) ->
+              (forall x, In x (spent_id (out_id t o) (r_notes r)) -> row_mined (r_txs r) x = false) ->
               mem_key (o_key o) nfs = true;
   bi_M : nfmap_complete (Qof (r_blocks r)) (r_nfmap r) (r_locs r);
   bi_L1 : forall h' i t', In (h', i, t') (r_locs r) -> Qof (r_blocks r) h';
@@ -355,7 +410,7 @@ Lemma put_sblock_complete floor nfs r r' cb :
   /\ (forall m, Qof (r_blocks r') m <-> m = b_height cb \/ Qof (r_blocks r) m).
 Proof.
   intros Hcb I Hfloor H.
-  pose proof (put_sblock_sound c U HcU HU birthday Hheights floor nfs cb r r' Hcb H (bi_sound _ _ _ I)) as Hsound'.
+  pose proof (put_sblock_sound_w c U HcU birthday Hheights floor nfs cb r r' Hcb H (bi_sound _ _ _ I)) as Hsound'.
   unfold put_sblock, scan_block in H.
   destruct (scan_txs nfs 0 (b_txs cb)) as [ws us] eqn:Es. cbn [sb_height sb_hash sb_wtxs sb_unl] in H.
   assert (Esb : scan_block nfs cb = mkSb (b_height cb) (b_hash cb) ws us) by (unfold scan_block; rewrite Es; reflexivity).
@@ -375,7 +430,7 @@ Proof.
     - intros b t o b' t' Hb Ht [HD | [_ []]] Ho Hoo Hb' Ht' [HD' | [_ []]]; eauto. }
   assert (T : txinv Q cb nfs (b_txs cb) txs' notes').
   { apply (put_wtxs_complete Q cb Hcb nfs (r_nfmap r) (r_locs r) (bi_M _ _ _ I)
-             (sr_locs _ _ _ _ _ _ (bi_sound _ _ _ I)) (sr_nfm _ _ _ _ _ _ (bi_sound _ _ _ I)) (bi_L1 _ _ _ I)
+             (sw_locs _ _ _ _ _ _ (bi_sound _ _ _ I)) (sw_nfm _ _ _ _ _ _ (bi_sound _ _ _ I)) (bi_L1 _ _ _ I)
              (Qof_dec (r_blocks r)) (b_txs cb) [] 0 (r_txs r) (r_notes r) txs' notes'); auto.
     rewrite Es. exact Ew. }
   assert (HD : forall b t, In b c -> In t (b_txs b) -> (Dp Q cb (b_txs cb) b t <-> Qof bl' (b_height b))).
@@ -398,7 +453,7 @@ Proof.
   { rewrite U2. apply NoDup_filter. apply (block_spends_nodup birthday c Hv). assumption. }
   (* the parts of the invariant that do not depend on the nullifier map *)
   assert (Hcommon : forall locs' nfm',
-            sound_rows c U bl' notes' locs' nfm' ->
+            sound_rows_w c U bl' notes' locs' nfm' ->
             nfmap_complete (Qof bl') nfm' locs' ->
             (forall h' i t', In (h', i, t') locs' -> Qof bl' h') ->
             (forall k h' i, In (k, (h', i)) nfm' -> Qof bl' h') ->
@@ -432,7 +487,7 @@ Proof.
         * apply negb_true_iff. destruct (mem_key (o_key o) (flat_map wt_found ws)) eqn:Em; [|reflexivity]. exfalso.
           apply mem_key_In in Em. apply in_flat_map in Em. destruct Em as [w [Hw1 Hw2]].
           destruct (Hw w Hw1) as [t' [Ht' [_ [Hfound _]]]]. apply Hfound in Hw2.
-          assert (Hin : In (t_id t') (spent_of (o_key o) notes')).
+          assert (Hin : In (t_id t') (spent_id (out_id t o) notes')).
           { apply (ti_spent _ _ _ _ _ _ T b t o cb t'); auto; [left; assumption | right; auto]. }
           assert (Hmi : row_mined txs' (t_id t') = true).
           { apply (ti_spm _ _ _ _ _ _ T b t o cb t'); auto; [left; assumption | right; auto]. }
@@ -521,17 +576,17 @@ Qed.
 (** * The state invariant *)
 
 Record inv (s : wstate) : Prop := {
-  iv_sound : sound c U s;
+  iv_sound : sound_w c U s;
   iv_rows : Forall (row_ok (Qof (w_blocks s))) (w_txs s);
   iv_recv : forall b t o, In b c -> In t (b_txs b) -> Qof (w_blocks s) (b_height b) -> In o (t_outs t) -> owned o = true ->
               row_mined (w_txs s) (t_id t) = true;
   iv_has : forall b t o, In b c -> In t (b_txs b) -> Qof (w_blocks s) (b_height b) -> In o (t_outs t) -> owned o = true ->
-              has_key (o_key o) (w_notes s);
+              key_id (out_id t o) (w_notes s) = Some (o_key o);
   (** spend completeness: the spender of a note whose creating block is scanned is recorded
       as soon as the spender's block is scanned *)
   iv_spent : forall b t o b' t', In b c -> In t (b_txs b) -> Qof (w_blocks s) (b_height b) -> In o (t_outs t) -> owned o = true ->
               In b' c -> In t' (b_txs b') -> Qof (w_blocks s) (b_height b') -> In (o_key o) (t_spends t') ->
-              In (t_id t') (spent_of (o_key o) (w_notes s));
+              In (t_id t') (spent_id (out_id t o) (w_notes s));
   iv_spm : forall b t o b' t', In b c -> In t (b_txs b) -> Qof (w_blocks s) (b_height b) -> In o (t_outs t) -> owned o = true ->
               In b' c -> In t' (b_txs b') -> Qof (w_blocks s) (b_height b') -> In (o_key o) (t_spends t') ->
               row_mined (w_txs s) (t_id t') = true;
@@ -546,7 +601,7 @@ Record inv (s : wstate) : Prop := {
 Lemma init_inv : inv init.
 Proof.
   constructor; cbn.
-  - apply init_sound.
+  - apply init_sound_w.
   - constructor.
   - intros b t o _ _ H. discriminate.
   - intros b t o _ _ H. discriminate.
@@ -623,20 +678,27 @@ Proof.
   - (* f1 *)
     intros k Hk. apply mem_key_In in Hk. unfold unspent_nfs in Hk. apply in_map_iff in Hk. destruct Hk as [n [<- Hn]].
     apply filter_In in Hn. destruct Hn as [Hn Hf]. apply andb_true_iff in Hf. destruct Hf as [Hm _].
-    destruct I1 as [_ S2 _ _ _]. rewrite Forall_forall in S2. destruct (S2 _ Hn) as [[b [t [o [Hb [Ht [Ho [Eo [Ek [_ [Er _]]]]]]]]]] _].
+    destruct I1 as [_ S2 S3 _ _]. rewrite Forall_forall in S2.
+    destruct (S2 _ Hn) as [[bU [tU [oU [HbU [HtU [HoU [Eo [Ek [_ [Er Ei]]]]]]]]]] _].
     destruct (mined_row_chain _ _ _ I2 Hm) as [b1 [t1 [Hb1 [Ht1 [Hid1 HQ1]]]]].
-    assert (t1 = t) by (apply (vu_tx _ HU b1 t1 b t); auto; congruence). subst t1.
-    exists b1, t, o. repeat split; try assumption. unfold owned; rewrite Eo; reflexivity.
+    destruct (same_tx_out bU tU oU b1 t1 HbU HtU HoU (HcU _ Hb1) Ht1) as [o1 [Ho1 En]]; [congruence|].
+    unfold out_nonf in En. inversion En as [[E1 E2 E3 E4]].
+    assert (Hoo : owned o1 = true) by (unfold owned; rewrite E1, Eo; reflexivity).
+    pose proof (I4 b1 t1 o1 Hb1 Ht1 HQ1 Ho1 Hoo) as Hkey.
+    assert (Eid : out_id t1 o1 = nid n).
+    { unfold out_id, nid. rewrite <- Ek. cbn [o_key fst]. congruence. }
+    unfold key_id in Hkey. rewrite Eid, (In_find_id _ _ S3 Hn) in Hkey. cbn in Hkey. inversion Hkey as [Hk].
+    exists b1, t1, o1. repeat split; try assumption. congruence.
   - (* f2 *)
     intros b t o Hb Ht Ho Hoo HQ _ Hnil.
-    pose proof (I4 b t o Hb Ht HQ Ho Hoo) as Hhas. apply find_note_has in Hhas. destruct Hhas as [n Hn].
-    pose proof (find_note_In _ _ _ Hn) as [Hin Hk].
-    apply mem_key_In. unfold unspent_nfs. apply in_map_iff. exists n. split; [assumption|].
+    pose proof (I4 b t o Hb Ht HQ Ho Hoo) as Hkey. unfold key_id in Hkey.
+    destruct (find_id (out_id t o) (w_notes s)) as [n|] eqn:Hn; [|discriminate]. cbn in Hkey. injection Hkey as Hk.
+    destruct (find_id_In _ _ _ Hn) as [Hin Hnid].
+    apply mem_key_In. unfold unspent_nfs. rewrite <- Hk. apply in_map.
     apply filter_In. split; [assumption|]. apply andb_true_iff. split.
-    + destruct I1 as [_ S2 _ _ _]. rewrite Forall_forall in S2. destruct (S2 _ Hin) as [[b1 [t1 [o1 [Hb1 [Ht1 [Ho1 [_ [Ek1 [_ [Er _]]]]]]]]]] _].
-      destruct (vu_out _ HU b1 t1 o1 b t o) as [-> _]; auto; [congruence|].
-      rewrite <- Er. exact (I3 b t o Hb Ht HQ Ho Hoo).
-    + unfold spent_of in Hnil. rewrite Hn in Hnil. apply negb_true_iff.
+    + assert (Er : n_recv n = t_id t) by (unfold nid, out_id in Hnid; inversion Hnid; reflexivity).
+      rewrite Er. exact (I3 b t o Hb Ht HQ Ho Hoo).
+    + unfold spent_id in Hnil. rewrite Hn in Hnil. apply negb_true_iff.
       destruct (existsb (row_blocks_nf (w_txs s)) (n_spent n)) eqn:Ex; [|reflexivity]. exfalso.
       apply existsb_exists in Ex. destruct Ex as [x [Hx Hbl]]. specialize (Hnil x Hx).
       unfold row_blocks_nf in Hbl. unfold row_mined in Hnil. destruct (find_row x (w_txs s)) as [rw|] eqn:Er; [|discriminate].
@@ -646,7 +708,7 @@ Qed.
 
 Lemma scan_inv s bs s' : incl bs c -> scan birthday s bs = Ok s' -> inv s -> inv s'.
 Proof.
-  intros Hin H I. pose proof (scan_sound c U HcU HU birthday Hheights s bs s' Hin H (iv_sound _ I)) as Hsound'.
+  intros Hin H I. pose proof (scan_sound_w c U HcU birthday Hheights s bs s' Hin H (iv_sound _ I)) as Hsound'.
   unfold scan in H. destruct bs as [|b0 bs0]; [inversion H; subst; assumption|].
   set (bs := b0 :: bs0) in *. set (h0 := b_height b0) in *.
   destruct (scan_blocks _ (unspent_nfs s) bs) as [sbs| |] eqn:E; try discriminate.
@@ -730,11 +792,11 @@ Qed.
 
 Lemma truncate_inv s h : inv s -> inv (truncate s h).
 Proof.
-  intros I. pose proof (truncate_sound c U s h (iv_sound _ I)) as Hsound'.
+  intros I. pose proof (truncate_sound_w c U s h (iv_sound _ I)) as Hsound'.
   set (Q := Qof (w_blocks s)).
   (* what the three branches have in common *)
   assert (Hcommon : forall bl' locs' nfm',
-            sound c U (mkW bl' (map (unmine h) (w_txs s)) (w_notes s) locs' nfm' (Some h)) ->
+            sound_w c U (mkW bl' (map (unmine h) (w_txs s)) (w_notes s) locs' nfm' (Some h)) ->
             (forall m, Qof bl' m <-> Q m /\ m <= h) ->
             nfmap_complete (Qof bl') nfm' locs' ->
             (forall h' i t', In (h', i, t') locs' -> Qof bl' h') ->
@@ -827,7 +889,7 @@ Proof.
     + inversion E; subst. apply truncate_inv; assumption.
 Qed.
 
-End Complete2.
+End WComplete.
 
 (** * Changing the chain under the wallet
 
@@ -837,7 +899,7 @@ End Complete2.
     Notes, spend rows and transaction rows stemming from the abandoned branch stay in the
     tables; they are covered by the universe [U]. *)
 Lemma switch_inv birthday U c c' s h :
-  valid_chain birthday c -> valid_chain birthday c' -> valid_universe U -> incl c U -> incl c' U ->
+  valid_chain birthday c -> valid_chain birthday c' -> weak_universe U -> incl c U -> incl c' U ->
   agree c c' h -> (forall m, Qof (w_blocks s) m -> m <= h) ->
   inv c U s -> inv c' U s.
 Proof.
